@@ -10,7 +10,7 @@ from harness.c01 import resolve, collect_slots, num
 
 PROPERTY = "C18"
 LEVEL = "model_checking"
-BOUNDS = {"hours_per_series": "N=2", "skeletons": "T1,T2,T3,T4,T5,T7,T9", "recomputation requests": "each object alone; each update function alone; every "
+BOUNDS = {"hours_per_series": "N=2", "skeletons": "T1,T2,T3,T4,T5,T7,T9,TX; builder systems (video, web, generative AI, cloud instance)", "recomputation requests": "each object alone; each update function alone; every "
           "ordered pair of objects (T1, T3 sample); the full chain; System.after_init() again; after a depth-1 edit",
           "inputs": "every numeric input compared with the value given, after computing and after recomputing (durations symbolic, not whole hours)",
           "reads": "explain(), str(), to_json, system_to_json (with/without calculated attributes), the *_sum_over_period "
@@ -140,7 +140,41 @@ def h_fixed_point(ctx, skeleton, mode, n=2, args=None, edit=None, pair_sample=No
         raise ValueError(mode)
 
 
-HARNESSES = {"fixed_point": h_fixed_point}
+def h_fixed_point_builders(ctx, kind, choice, mode):
+    """systems made with the builder classes: recomputing an object / one update function / reading changes nothing"""
+    from harness import c17
+    env = c17.builder_env(ctx, kind)
+    A = c17.builder_system(ctx, env, kind, choice)
+    V.observe_system(ctx, A)
+    live = {k: v for k, v in A.items() if isinstance(v, ModelingObject)}
+    s0 = S.snapshot(live)
+
+    def check(label):
+        S.compare_snapshots(ctx, s0, S.snapshot(live), label, identity=False, values=True, graph=False,
+                            skip_attrs=("initial_total_energy_footprints_sum_over_period",
+                                        "initial_total_fabrication_footprints_sum_over_period"))
+    for nm, o in live.items():
+        if mode == "each":
+            o.compute_calculated_attributes()
+            check(f"after recomputing {nm} alone")
+        elif mode == "attrs":
+            for attr in o.calculated_attributes:
+                getattr(o, f"update_{attr}")()
+                check(f"after recomputing {nm}.{attr} alone")
+        else:
+            str(o)
+            for attr in o.calculated_attributes:
+                v = getattr(o, attr)
+                for val in (list(v.values()) if isinstance(v, dict) else [v]):
+                    str(val)
+                    val.explain()
+            o.to_json(save_calculated_attributes=True)
+    if mode == "reads":
+        system_to_json(A["system"], save_calculated_attributes=True)
+        check("after str()/explain()/to_json/system_to_json on everything")
+
+
+HARNESSES = {"fixed_point": h_fixed_point, "fixed_point_builders": h_fixed_point_builders}
 
 
 def plan(tier, seed):
@@ -156,6 +190,10 @@ def plan(tier, seed):
     p.append(("fixed_point", dict(skeleton="TX", mode="each")))
     p.append(("fixed_point", dict(skeleton="TX", mode="reads", args={"shared": True})))
     p.append(("fixed_point", dict(skeleton="T1", mode="inputs")))
+    from harness.c17 import BUILDER_CASES
+    for i, (kind, choice) in enumerate(BUILDER_CASES):
+        for mode in (("attrs", "reads") if tier == "quick" else ("each", "attrs", "reads")):
+            p.append(("fixed_point_builders", dict(kind=kind, choice=choice, mode=mode)))
     p.append(("fixed_point", dict(skeleton="T3", mode="pairs", pair_sample=seed + 1)))
     p.append(("fixed_point", dict(skeleton="T5", mode="each", args={"type1": "on-premise", "type2": "autoscaling", "fixed1": 4})))
     p.append(("fixed_point", dict(skeleton="T1", mode="each", edit=num("job", "data_stored"))))
